@@ -289,3 +289,37 @@ Proof.
   rewrite (SetTtl_set_nth_id st r s Hs).
   destruct w; cbn in Hb; try discriminate; reflexivity.
 Qed.
+
+(* ---------- RRset.match / full_match ---------- *)
+
+Lemma name_eqb_spec a b : name_eqb a b = true <-> map lower_l a = map lower_l b.
+Proof.
+  unfold name_eqb. generalize (map lower_l a) (map lower_l b). clear a b.
+  induction l as [|x a IH]; intros [|y b]; cbn; try (split; congruence).
+  rewrite andb_true_iff, zlist_eqb_eq, IH. split; [intros [-> ->]; reflexivity|].
+  intros E; inversion E; auto.
+Qed.
+
+(* full_match(name, rdclass, rdtype, covers, deleting): every one of the five identifying
+   attributes, the owner name case-insensitively *)
+Theorem r_full_match_spec s n c t v d :
+  r_full_match s n c t v d = true <->
+  cls s = c /\ typ s = t /\ cov s = v /\ map lower_l (oname s) = map lower_l n /\ deleting s = d.
+Proof.
+  unfold r_full_match, r_match.
+  destruct (cls s =? c) eqn:E1; cbn; [|apply Z.eqb_neq in E1; split; [discriminate|tauto]].
+  destruct (typ s =? t) eqn:E2; cbn; [|apply Z.eqb_neq in E2; split; [discriminate|tauto]].
+  destruct (cov s =? v) eqn:E3; cbn; [|apply Z.eqb_neq in E3; split; [discriminate|tauto]].
+  apply Z.eqb_eq in E1, E2, E3.
+  destruct (name_eqb (oname s) n) eqn:E4; cbn.
+  - apply name_eqb_spec in E4.
+    destruct (deleting s) as [x|], d as [y|]; cbn; try (split; [discriminate|intros (_&_&_&_&H); discriminate]).
+    + destruct (x =? y) eqn:E5; cbn.
+      * apply Z.eqb_eq in E5. subst. tauto.
+      * apply Z.eqb_neq in E5. split; [discriminate|]. intros (_&_&_&_&H). inversion H. contradiction.
+    + tauto.
+  - split; [discriminate|]. intros (_&_&_&H&_). apply name_eqb_spec in H. congruence.
+Qed.
+
+Theorem r_match_spec s c t v : r_match s c t v = true <-> cls s = c /\ typ s = t /\ cov s = v.
+Proof. unfold r_match. rewrite !andb_true_iff, !Z.eqb_eq. tauto. Qed.
